@@ -282,10 +282,15 @@ class DirectCollocation(SamplingMethod):
                 # Row vector if vector
                 if value.is_column() and var.is_scalar(): value = value.T
                 if is_states:
-                    if var.numel()*(self.N)==value.numel() or var.numel()*(self.N+1)==value.numel():
-                        value_integrator = kron(DM.ones(1,self.M),value[:,:self.N])
-                        if var.numel()*(self.N+1)==value.numel(): value_integrator = horzcat(value_integrator.value[:,-1])
-                        value_integrator_root = kron(DM.ones(1,self.M*self.degree),value[:,:self.N])
+                    if value.is_scalar() and not var.is_scalar():
+                        # A scalar guess is repeated to fit the shape of the state
+                        value = DM.ones(var.shape[0], var.shape[1])*value
+                    if var.is_vector() and (var.numel()*(self.N)==value.numel() or var.numel()*(self.N+1)==value.numel()):
+                        # One column per control interval (optionally one more for tf): repeat each column over
+                        # the integrator points and collocation points of its interval
+                        value_control = value[:,:self.N]
+                        value_integrator = horzcat(ca.kron(value_control, DM.ones(1,self.M)), value[:,-1])
+                        value_integrator_root = ca.kron(value_control, DM.ones(1,self.M*self.degree))
                     else:
                         value_integrator = repmat(value,1,self.N*self.M+1)
                         value_integrator_root = repmat(value,1,self.N*self.M*self.degree)
